@@ -11,6 +11,10 @@ import (
 )
 
 const (
+	// cgDescentTol is the constant c of the sufficient descent condition
+	// gᵀd <= -c |g|² that a conjugate direction must satisfy to be used.
+	cgDescentTol = 1e-10
+
 	iterationRestartFactor = 6
 	angleRestartThreshold  = -0.9
 )
@@ -229,8 +233,12 @@ func (cg *CG) NextDirection(loc *Location, dir []float64) (stepSize float64) {
 	if !restart {
 		// The method is not being restarted, so update the descent direction.
 		floats.AddScaled(dir, beta, cg.dirPrev)
-		if floats.Dot(loc.Gradient, dir) >= 0 {
-			// Restart because the new direction is not a descent direction.
+		if floats.Dot(loc.Gradient, dir) >= -cgDescentTol*gNorm*gNorm {
+			// Restart because the new direction is not a descent direction,
+			// or is one only by rounding: a direction numerically orthogonal
+			// to the gradient, or one in which -g and beta*dPrev have
+			// cancelled, gives the line search nothing to work with. This is
+			// the sufficient descent condition gᵀd <= -c |g|².
 			restart = true
 			copy(dir, loc.Gradient)
 			floats.Scale(-1, dir)
